@@ -112,7 +112,12 @@ func (c *Ctx) oblige(s *State, kind, label, goal, human string, pos token.Pos) {
 		sb.WriteString(cmd)
 		sb.WriteByte('\n')
 	}
-	sb.WriteString("(assert (not " + goal + "))\n")
+	skGoal, skDecls := skolemize(goal)
+	for _, d := range skDecls {
+		sb.WriteString(d)
+		sb.WriteByte('\n')
+	}
+	sb.WriteString("(assert (not " + skGoal + "))\n")
 	o.Script = sb.String()
 	o.Vars = c.modelVars
 	c.obls = append(c.obls, o)
